@@ -118,7 +118,7 @@ func registry() []PropSpec {
 		{
 			ID: "C12",
 			Quick: []HarnessSpec{
-				{Pkg: pkgRefServer, Func: "H12a_q", Unwind: 40, TimeoutMs: 60000, Solvers: []string{"z3-new", "cvc5-int"}, Split: []SplitDim{{"grpc", 0, 1}, {"nd", 1, 11}, {"unit", 0, 6}}, CaseNote: "case split: protocol, number of digits (1..11 / 1..9) and unit letter (H M S m u n, or an invalid letter); every digit is symbolic (no redundant leading zero)", Note: "extractTimeout on Connect-Timeout-Ms / Grpc-Timeout values"},
+				{Pkg: pkgRefServer, Func: "H12a_q", Unwind: 40, TimeoutMs: 60000, Solvers: []string{"z3-new", "cvc5-int"}, Split: []SplitDim{{"grpc", 0, 1}, {"nd", 1, 11}, {"unit", 0, 6}, {"lz", 0, 1}, {"lead", 0, 2}}, CaseNote: "case split: protocol, number of digits (1..11 / 1..9), redundant leading zero or not, sign (none, +, -), and unit letter (H M S m u n, or an invalid letter); every other digit is symbolic", Note: "extractTimeout on Connect-Timeout-Ms / Grpc-Timeout values"},
 				{Pkg: pkgRefServer, Func: "H12c_q", Unwind: 40, Note: "referenceServerChecks middleware: request with / without test name, with / without Connect-Timeout-Ms, with / without request trailers, followed or not by a repeated request of the same test and a first request of another test"},
 				{Pkg: pkgRefServer, Func: "H12b_q", Unwind: 40, Note: "checkHTTPVersion/Protocol/Codec/Compression/TLS on the request of a conformant client: full matrix expected x actual of 3 HTTP versions, GET/POST, 3 protocols (unary/stream content types, bare or +codec), 2 codecs, 6 compressions (identity explicit or omitted), TLS on/off, client certificate none/a/b"},
 			},
@@ -214,8 +214,8 @@ func registry() []PropSpec {
 				{Pkg: pkgInternal, Func: "H09a_q", Unwind: 6, Note: "read(k): k<=4 bytes, <=3 Read calls each returning symbolic (n<=len(p), err in {nil,EOF,other})"},
 				{Pkg: pkgInternal, Func: "H09b_q", Unwind: 6, Note: "readDelimitedMessageRaw: symbolic 4-byte prefix + body <=2 bytes, max size 0..2, <=4 Read calls"},
 				{Pkg: pkgInternal, Func: "H09d_q", Unwind: 6, Note: "as H09b plus a reader that may block forever at any call (stall); timer branch"},
-				{Pkg: pkgInternal, Func: "H09p_q", Unwind: 6, UnwindFor: map[string]int{"h09p": 20}, Only: []string{"(google.golang.org/protobuf/proto.MarshalOptions).Marshal=vModelMarshalBytesValue", "(google.golang.org/protobuf/proto.UnmarshalOptions).Unmarshal=vModelUnmarshalBytesValue"}, Note: "peer-side binary codec: protoEncoder.Encode then protoDecoder.DecodeNext for 0..1 messages of 0..2 symbolic bytes, the stream cut after any number of bytes, delivered in chunks of 1..4 bytes chosen per read, EOF with or after the last bytes"},
-				{Pkg: pkgInternal, Func: "H09p2_q", Unwind: 6, UnwindFor: map[string]int{"h09p": 20}, Only: []string{"(google.golang.org/protobuf/proto.MarshalOptions).Marshal=vModelMarshalBytesValue", "(google.golang.org/protobuf/proto.UnmarshalOptions).Unmarshal=vModelUnmarshalBytesValue"}, Split: []SplitDim{{"nmsg", 0, 2}, {"len0", 0, 2}, {"len1", 0, 2}}, CaseNote: "case split: number of messages and their lengths (the layout of the stream); cut point and payload bytes symbolic", Note: "peer-side binary codec: two messages in order, the stream cut after any number of bytes, reads that fill their buffer"},
+				{Pkg: pkgInternal, Func: "H09p_q", Unwind: 6, FeasQueryMs: 8000, FeasSecs: 200, JobSecs: 900, UnwindFor: map[string]int{"h09p": 20}, Only: []string{"(google.golang.org/protobuf/proto.MarshalOptions).Marshal=vModelMarshalBytesValue", "(google.golang.org/protobuf/proto.UnmarshalOptions).Unmarshal=vModelUnmarshalBytesValue"}, Note: "peer-side binary codec: protoEncoder.Encode then protoDecoder.DecodeNext for 0..1 messages of 0..2 symbolic bytes, the stream cut after any number of bytes, delivered in chunks of 1..4 bytes chosen per read, EOF with or after the last bytes"},
+				{Pkg: pkgInternal, Func: "H09p2_q", Unwind: 6, FeasQueryMs: 8000, FeasSecs: 200, JobSecs: 900, UnwindFor: map[string]int{"h09p": 20}, Only: []string{"(google.golang.org/protobuf/proto.MarshalOptions).Marshal=vModelMarshalBytesValue", "(google.golang.org/protobuf/proto.UnmarshalOptions).Unmarshal=vModelUnmarshalBytesValue"}, Split: []SplitDim{{"nmsg", 0, 2}, {"len0", 0, 2}, {"len1", 0, 2}}, CaseNote: "case split: number of messages and their lengths (the layout of the stream); cut point and payload bytes symbolic", Note: "peer-side binary codec: two messages in order, the stream cut after any number of bytes, reads that fill their buffer"},
 			},
 			Stubs: []string{"io.Reader = script reader with symbolic (n, err) per call, assumed to end/fail/complete within the stated number of calls", "goroutine in readDelimitedMessageRaw runs to completion (or until it blocks) at the spawn point; time.After is ready nondeterministically and fires when nothing else is ready"},
 			Out:   []string{"JSON wire variant (encoding/json)", "real timers", "proto.Marshal/Unmarshal"},
